@@ -339,6 +339,23 @@ pub fn api_ops() -> Vec<AOp> {
     ops.push(AOp::Uncompact(vec![seamcell], 5));
     ops.push(AOp::Hex(fine));
     ops.push(AOp::Area(7));
+    // collision lattice: cells that differ in exactly one component of (face, quintant, position,
+    // resolution) — a cache keyed on any proper subset of those components makes two of them collide
+    for face in [3u64, 7] {
+        for quintant in [0u64, 2] {
+            for (res, pos) in [(2, 0u64), (3, 0), (3, 5), (5, 0), (5, 5), (9, 0)] {
+                if let Some(c) = crate::refcodec::encode(crate::refcodec::Tuple { face, quintant, s: pos, res }) {
+                    ops.push(AOp::Centre(c));
+                    ops.push(AOp::Boundary(c, Some(1)));
+                }
+            }
+        }
+    }
+    // the same point at neighbouring resolutions, and two nearby points at one resolution
+    for r in [3, 4, 5] {
+        ops.push(AOp::Lookup(12.3, 45.6, r));
+        ops.push(AOp::Lookup(12.3001, 45.6, r));
+    }
     // direct projection calls on the thread's instance: same face, same sector, beyond the edge
     let qb = plane_point(POp { face: 3, sector: 4, beyond: true, forward: false });
     let qi = plane_point(POp { face: 3, sector: 4, beyond: false, forward: false });
